@@ -1721,8 +1721,8 @@ class DNA(symbolic.Object):
     Raises:
       ValueError: If parameters are not aligned with DNA spec.
     """
-    del use_literal_values
-    return cls.from_dict(parameters, dna_spec)
+    return cls.from_dict(
+        parameters, dna_spec, use_ints_as_literals=use_literal_values)
 
 
 symbolic.members([
